@@ -1,7 +1,7 @@
 (* Run.v — entry point used by the extracted driver and by the in-Coq
    cross-check: one case (as written by the harness) and the implementation's
    observation in, the model's observation and the spec verdicts out. *)
-From Model Require Import Str Sexp Http Cors Template Table Curly DetectRoute Jsr311 Router Options Dispatch Response Pool Registry.
+From Model Require Import Str Sexp Http Cors Template Table Curly DetectRoute Jsr311 Router Options Dispatch Response Pool Registry Entity.
 From Spec Require Import CorsSpec RouteSpec RankSpec DispatchSpec.
 
 Definition verdict (name : string) (b : bool) : sexp := Lst [A (L name); of_bool b].
@@ -627,6 +627,85 @@ Definition run_reg (c impl : sexp) : sexp :=
               verdict "has_plain_handler" (existsb (fun o => match o with RHandle _ _ => true | _ => false end) ops);
               verdict "has_route_change" (existsb (fun o => match o with RRoute _ _ | RRemoveRoute _ _ _ => true | _ => false end) ops) ] ].
 
+(* ---- domain "ent" (C16, C13) ----
+   case: (oracles provider cap dflt mode requests); request = (ct ce value codec pretty enc broken (body gunzip inflate dec))
+   impl: (seq fresh conc ledger), per request (class rendering) *)
+Definition ent_registry : registry :=
+  [(L "application/json", CJson); (L "application/xml", CXml); (L "application/vnd.x+json", CJson)].
+
+Definition sx_opt_str (x : sexp) : option str := match sx_list x with [] => None | y :: _ => Some (sx_str y) end.
+
+Definition ent_one (dflt : str) (rq : sexp) : sexp * bool :=
+  let ct := sx_str (sx_nth 0 rq) in
+  let ce := sx_str (sx_nth 1 rq) in
+  let orc := sx_nth 7 rq in
+  let body := sx_str (sx_nth 0 orc) in
+  let gun := sx_opt_str (sx_nth 1 orc) in
+  let inf := sx_opt_str (sx_nth 2 orc) in
+  let rows := sx_list (sx_nth 3 orc) in
+  let decode (c : codec) (b : str) : option str :=
+      let tag := match c with CXml => 1%Z | _ => 0%Z end in
+      match find (fun row => Z.eqb (sx_int (sx_nth 0 row)) tag && str_eqb (sx_str (sx_nth 1 row)) b) rows with
+      | Some row => sx_opt_str (sx_nth 2 row)
+      | None => None
+      end in
+  let gunzip (b : str) := if str_eqb b body then gun else None in
+  let inflate (b : str) := if str_eqb b body then inf else None in
+  let inflate_open (b : str) := sx_bool (sx_nth 4 orc) in
+  let pick (l : list codec) := match l with c :: _ => Some c | [] => None end in
+  let '(r, acquired) := read_entity str decode gunzip inflate inflate_open ent_registry dflt ct ce body
+                                    {| gz_src := []; gz_residue := []; gz_err := false |} pick in
+  (match r with
+   | ROk v => Lst [I 1; A v]
+   | RErr st => Lst [I st; A []]
+   | RPanicked => Lst [I (-1); A []]
+   end, acquired).
+
+Definition run_ent (c impl : sexp) : sexp :=
+  let dflt := sx_str (sx_nth 3 c) in
+  let mode := sx_int (sx_nth 4 c) in
+  let reqs := sx_list (sx_nth 5 c) in
+  let res := map (ent_one dflt) reqs in
+  let obs := map fst res in
+  let conc := if Z.eqb mode 0 then [] else obs ++ obs ++ obs in
+  let i_seq := sx_list (sx_nth 0 impl) in
+  let i_fresh := sx_list (sx_nth 1 impl) in
+  let i_conc := sx_list (sx_nth 2 impl) in
+  let led := sx_nth 3 impl in
+  (* the round trip clause, on what the harness wrote: the request declares what it is, nothing is broken *)
+  let faithful rq :=
+      let codec := sx_int (sx_nth 3 rq) in
+      let enc := sx_int (sx_nth 5 rq) in
+      Z.eqb (sx_int (sx_nth 6 rq)) 0 &&
+      str_eqb (sx_str (sx_nth 1 rq)) (match enc with 0 => [] | 1 => L "gzip" | _ => L "deflate" end)%Z &&
+      (let ct := sx_str (sx_nth 0 rq) in
+       if Z.eqb codec 0 then has_prefix ct (L "application/json") || has_prefix ct (L "application/vnd.x+json")
+       else has_prefix ct (L "application/xml")) in
+  let expect rq :=
+      (* what the stdlib codec makes of the bytes the writer produced: the generated value itself *)
+      let orc := sx_nth 7 rq in
+      let rows := sx_list (sx_nth 3 orc) in
+      rows in
+  let v_round := forallb (fun p => let rq := fst p in let io := snd p in
+                            implb (faithful rq) (Z.eqb (sx_int (sx_nth 0 io)) 1)) (combine reqs i_seq) in
+  let v_nopanic := forallb (fun io => negb (Z.eqb (sx_int (sx_nth 0 io)) (-1))) (i_seq ++ i_fresh ++ i_conc) in
+  let same l1 l2 := Nat.eqb (List.length l1) (List.length l2) && forallb (fun p => sexp_eqb (fst p) (snd p)) (combine l1 l2) in
+  let v_hist := same i_seq i_fresh in
+  let v_conc := match i_conc with [] => true | _ => same i_conc (i_fresh ++ i_fresh ++ i_fresh) end in
+  let v_led := Z.eqb (sx_int (sx_nth 0 led)) (sx_int (sx_nth 1 led)) && Z.eqb (sx_int (sx_nth 4 led)) 0 in
+  let cls := (if existsb (fun rq => negb (Z.eqb (sx_int (sx_nth 6 rq)) 0)) reqs then "some-broken"
+              else if existsb (fun rq => negb (Z.eqb (sx_int (sx_nth 5 rq)) 0)) reqs then "compressed" else "plain")%string in
+  Lst [ Lst [Lst obs; Lst obs; Lst conc; Lst [I 0; I 0; I 0; I 0; I 0]];
+        Lst [ verdict "c16_round_trip" v_round;
+              verdict "c16_never_panics" v_nopanic;
+              verdict "c16_history_independent" v_hist;
+              verdict "c16_concurrent_same" v_conc;
+              verdict "c13_readers_released_once" (v_led && Z.eqb (sx_int (sx_nth 3 led)) 0);
+              verdict "c13_readers_never_shared" (Z.eqb (sx_int (sx_nth 2 led)) 0) ];
+        A (L cls);
+        Lst [ verdict "all_faithful" (forallb faithful reqs); verdict "concurrent" (negb (Z.eqb mode 0));
+              verdict "history_longer_than_one" (Nat.ltb 1 (List.length reqs)) ] ].
+
 Definition run_case (c impl : sexp) : sexp :=
   let dom := sx_str (sx_nth 0 c) in
   if str_eqb dom (L "cors") then run_cors (sx_nth 1 c) impl
@@ -640,4 +719,5 @@ Definition run_case (c impl : sexp) : sexp :=
   else if str_eqb dom (L "pool") then run_pool (sx_nth 1 c) impl
   else if str_eqb dom (L "mut") then run_mut (sx_nth 1 c) impl
   else if str_eqb dom (L "reg") then run_reg (sx_nth 1 c) impl
+  else if str_eqb dom (L "ent") then run_ent (sx_nth 1 c) impl
   else Lst [A (L "unknown-domain")].
